@@ -110,7 +110,7 @@ def _t1(chk, repo, g, mod, gi, where):
 
 def _t2(chk, repo, g, mod):
     # ------------------------------------------------------------ T2
-    reach = g.reachable([GETITEM, f"{WRAPPER}.__getitem__", f"{WRAPPER}._raw_indexing_method"])
+    reach = g.reachable([GETITEM, repo.func(f"{WRAPPER}.__getitem__").key, repo.func(f"{WRAPPER}._raw_indexing_method").key])
     bad = []
     for k in sorted(reach):
         fi = g.funcs[k]
@@ -140,7 +140,7 @@ def _t2(chk, repo, g, mod):
 
 
 def _t34(chk, repo, g):
-    reach = g.reachable([GETITEM, f"{WRAPPER}.__getitem__", f"{WRAPPER}._raw_indexing_method"])
+    reach = g.reachable([GETITEM, repo.func(f"{WRAPPER}.__getitem__").key, repo.func(f"{WRAPPER}._raw_indexing_method").key])
     # ------------------------------------------------------------ T3 / T4
     xr = repo.module("ceos_alos2.xarray")
     bad_locks = []
